@@ -267,8 +267,10 @@ func (cs *ContractSet) LoadContractFile(path, pkg string) error {
 			if len(fs) != 3 {
 				return fail(l, "bad ghost decl")
 			}
-			if _, ok := cs.Ghosts[fs[1]]; !ok {
+			if g, ok := cs.Ghosts[fs[1]]; !ok {
 				cs.GhostOrder = append(cs.GhostOrder, fs[1])
+			} else if g.Sort != fs[2] {
+				return fail(l, "ghost %s redeclared with a different sort (%s vs %s)", fs[1], g.Sort, fs[2])
 			}
 			cs.Ghosts[fs[1]] = &GhostDecl{fs[1], fs[2]}
 		case strings.HasPrefix(t, "uf "):
